@@ -47,8 +47,8 @@ def iter_base(t):
     while isinstance(t, tuple) and t and t[0] in ITER_WRAPPERS:
         if t[0] == "iter":
             return t[1]
-        if t[0] == "adapt":
-            return None
+        if t[0] in ("adapt", "rev"):
+            return None     # filters / reorders: not "every item, in order"
         t = t[1]
     if isinstance(t, tuple) and t and t[0] == "call":
         return t
